@@ -325,20 +325,30 @@ class World:
         if self.gen is not None:
             return "skip"
         raw = self.db.raw()
+        # (what was written since the last batch ended, if anything, is buffered and belongs
+        # to the next batch: the model's buffer says what to expect)
         for k in [unhx(x) for x in cmd["keys"]]:
             try:
                 got = self.scratch[k]
             except KeyError:
                 got = None
-            if got != raw.get(k):
-                self.viol("buffer-not-empty", f"after the batch scratch[{k.hex()}] reads {got!r}, the wrapped store holds {raw.get(k)!r}")
-            if (k in self.scratch) is not (k in raw):
+            if got != self.expect_read(k):
+                self.viol("buffer-not-empty", f"after the batch scratch[{k.hex()}] reads {got!r}, expected {self.expect_read(k)!r} (wrapped store: {raw.get(k)!r}, written since: {self.buffer.get(k)!r})")
+            if (k in self.scratch) is not (self.expect_read(k) is not None):
                 self.viol("buffer-not-empty", f"after the batch `{k.hex()} in scratch` disagrees with the wrapped store")
-        before = dict(raw)
-        with self.scratch.batch_commit(do_deletes=bool(cmd.get("dd"))):
+        want = dict(raw)
+        dd = bool(cmd.get("dd"))
+        for k, b in self.buffer.items():
+            if b != DEL:
+                want[k] = b
+            elif dd:
+                want.pop(k, None)
+        with self.scratch.batch_commit(do_deletes=dd):
             pass
-        if self.db.raw() != before:
+        if self.db.raw() != want:
             self.viol("buffer-not-empty", "an empty batch right after the previous one changed the wrapped store (stale buffer committed)")
+        self.wrapped = want
+        self.buffer = {}
         self.st.probe("empty-batch-after")
         return "ok"
 
